@@ -278,25 +278,28 @@ func errOnlyUnderMismatch(fn *ssa.Function, errv ssa.Value, mismatch []edge) (bo
 }
 
 func checkC09(c *Ctx) {
-	p := c.P
 	c.Level = "proof"
 	c.Explain = "C09 decided by a read-discipline argument: the SMF decoder may touch its source only through operations whose result is a function of the remaining byte sequence (stdlib fill-or-fail primitives, or one-byte reads whose count is checked), so the decoded value cannot depend on how Read fragments the data. Obligations: one per dynamic Read on the source, one per escape of the source value, one per data+EOF handling site."
 	c.Trusted = []string{"io.ReadFull/io.ReadAtLeast/io.CopyN/io.ReadAll contracts", "go/ssa + VTA call graph", "field-based may-flow of the source value (flow.go)"}
 	c.Rule("C09.1", "every dynamic io.Reader.Read on the SMF source (value-flow from ReadFrom's reader parameter) is a one-byte read whose count reaches a comparison separating 0 from 1, or the source is handed to a stdlib fill-or-fail primitive; a multi-byte Read issued once is a violation", 2)
 	c.Rule("C09.2", "data+EOF: at every source read site the accompanying error may cause failure only under control dependence on a short count", 1)
 	c.Rule("C09.3", "the source value escapes to nothing but the classified read sites, fill-or-fail primitives and Close (no type switch to ByteReader/Seeker, no bufio)", 1)
+	readDiscipline(c, "C09.1", "C09.2", "C09.3")
+}
 
+// readDiscipline: the E-io rules on the SMF source (shared by C09 and C05.3).
+func readDiscipline(c *Ctx, r1, r2, r3 string) {
+	p := c.P
 	readFrom := p.Func("smf", "ReadFrom")
 	readFile := p.Func("smf", "ReadFile")
 	if readFrom == nil || readFile == nil {
-		c.Unk("C09.1", "anchor smf.ReadFrom/ReadFile", "-", "anchor not resolved")
+		c.Unk(r1, "anchor smf.ReadFrom/ReadFile", "-", "anchor not resolved")
 		return
 	}
 	scope := p.Reachable(readFrom, readFile)
 	for _, f := range scope {
 		c.Fn(FuncName(f))
 	}
-	// seeds: ReadFrom's reader parameter and the *os.File opened in ReadFile
 	seeds := []ssa.Value{readFrom.Params[0]}
 	fl := NewFlow(p, scope, seeds...)
 
@@ -310,25 +313,25 @@ func checkC09(c *Ctx) {
 			nsites++
 			rs := analyseReadSite(call)
 			if !rs.constL || rs.bufLen != 1 {
-				c.Bad("C09.1", "read-site "+FuncName(fn), p.Pos(call.Pos()), fmt.Sprintf("raw Read on the SMF source into a buffer that is not of constant length 1 (constLen=%v len=%d): a short read is legal for io.Reader and is not retried, so the result depends on fragmentation", rs.constL, rs.bufLen))
+				c.Bad(r1, "read-site "+FuncName(fn), p.Pos(call.Pos()), fmt.Sprintf("raw Read on the SMF source into a buffer that is not of constant length 1 (constLen=%v len=%d): a short read is legal for io.Reader and is not retried, so the result depends on fragmentation and a truncated field is zero padded", rs.constL, rs.bufLen))
 				continue
 			}
 			if rs.count == nil {
-				c.Bad("C09.1", "read-site "+FuncName(fn), p.Pos(call.Pos()), "one-byte Read whose count is discarded")
+				c.Bad(r1, "read-site "+FuncName(fn), p.Pos(call.Pos()), "one-byte Read whose count is discarded")
 				continue
 			}
 			mis, _ := countMismatchEdges(rs.count, 1, true, nil)
 			if len(mis) == 0 {
-				c.Bad("C09.1", "read-site "+FuncName(fn), p.Pos(call.Pos()), "one-byte Read whose count never reaches a comparison that separates 0 from 1")
+				c.Bad(r1, "read-site "+FuncName(fn), p.Pos(call.Pos()), "one-byte Read whose count never reaches a comparison that separates 0 from 1")
 				continue
 			}
-			c.OK("C09.1", "read-site "+FuncName(fn), p.Pos(call.Pos()), "one-byte buffer, count compared (short read => exit/error)")
+			c.OK(r1, "read-site "+FuncName(fn), p.Pos(call.Pos()), "one-byte buffer, count compared (short read => exit/error)")
 			ok, why := errOnlyUnderMismatch(fn, rs.err, mis)
-			c.Check(ok, "C09.2", "read-site "+FuncName(fn), p.Pos(call.Pos()), why, why)
+			c.Check(ok, r2, "read-site "+FuncName(fn), p.Pos(call.Pos()), why, why)
 		case "Close":
-			c.OK("C09.3", "invoke "+key, p.Pos(call.Pos()), "Close on the source is allowed")
+			c.OK(r3, "invoke "+key, p.Pos(call.Pos()), "Close on the source is allowed")
 		default:
-			c.Bad("C09.3", "invoke "+key, p.Pos(call.Pos()), "method "+name+" invoked on the SMF source: behaviour would depend on the concrete reader")
+			c.Bad(r3, "invoke "+key, p.Pos(call.Pos()), "method "+name+" invoked on the SMF source: behaviour would depend on the concrete reader")
 		}
 	}
 	for _, call := range fl.Escapes {
@@ -336,7 +339,7 @@ func checkC09(c *Ctx) {
 		fn := call.Parent()
 		if why, ok := fillOrFail[q]; ok {
 			nsites++
-			c.OK("C09.1", "primitive "+q+" in "+FuncName(fn), p.Pos(call.Pos()), "fill-or-fail primitive: "+why)
+			c.OK(r1, "primitive "+q+" in "+FuncName(fn), p.Pos(call.Pos()), "fill-or-fail primitive: "+why)
 			continue
 		}
 		if q == "" {
@@ -346,15 +349,14 @@ func checkC09(c *Ctx) {
 				q = "dynamic call"
 			}
 		}
-		// the logger is an external callback and never receives the reader; anything else is an escape
-		c.Bad("C09.3", "escape to "+q+" in "+FuncName(fn), p.Pos(call.Pos()), "the SMF source value is passed to a callee outside the module that is not a fill-or-fail primitive")
+		c.Bad(r3, "escape to "+q+" in "+FuncName(fn), p.Pos(call.Pos()), "the SMF source value is passed to a callee outside the module that is not a fill-or-fail primitive")
 	}
 	for _, ta := range fl.Asserts {
 		tn := ta.AssertedType.String()
 		okT := tn == "io.ReadCloser" || tn == "io.Closer"
-		c.Check(okT, "C09.3", "type-assert to "+tn+" in "+FuncName(ta.Parent()), p.Pos(ta.Pos()), "documented Closer assertion", "type assertion on the SMF source to "+tn+": decoding would depend on the concrete reader type")
+		c.Check(okT, r3, "type-assert to "+tn+" in "+FuncName(ta.Parent()), p.Pos(ta.Pos()), "documented Closer assertion", "type assertion on the SMF source to "+tn+": decoding would depend on the concrete reader type")
 	}
-	c.OK("C09.3", "flow-summary", "-", fmt.Sprintf("source value flow computed: %d SSA values, %d struct fields carry it; every sink was classified above", len(fl.Vals), len(fl.Fields)))
+	c.OK(r3, "flow-summary", "-", fmt.Sprintf("source value flow computed: %d SSA values, %d struct fields carry it; every sink was classified above", len(fl.Vals), len(fl.Fields)))
 	c.Extra["source_read_sites"] = nsites
 	c.Extra["tainted_fields"] = len(fl.Fields)
 }
